@@ -509,10 +509,20 @@ func buildDefinition(spec *Spec, w *world) (def *graphql.SchemaDefinition, named
 	if !ok {
 		fail("query type %q is not an object", spec.Query)
 	}
+	directives := map[string]*graphql.DirectiveDefinition{"include": graphql.IncludeDirective, "skip": graphql.SkipDirective}
+	for _, d := range spec.Directives {
+		if directives[d.Name] != nil {
+			fail("duplicate directive %s", d.Name)
+		}
+		directives[d.Name] = &graphql.DirectiveDefinition{
+			Arguments: mkArgs(d.Args, "@"+d.Name),
+			Locations: []gschema.DirectiveLocation{gschema.DirectiveLocationField, gschema.DirectiveLocationFragmentSpread, gschema.DirectiveLocationInlineFragment},
+		}
+	}
 	def = &graphql.SchemaDefinition{
 		Query:           q,
 		AdditionalTypes: additional,
-		Directives:      map[string]*graphql.DirectiveDefinition{"include": graphql.IncludeDirective, "skip": graphql.SkipDirective},
+		Directives:      directives,
 	}
 	if spec.Mutation != "" {
 		m, ok := named[spec.Mutation].(*graphql.ObjectType)
